@@ -188,6 +188,13 @@ func (l fmtLayout) decl(kind string, n int) (text string, needsStrings bool) {
 		return doc + f("dy") + ":" + S0 + l.members(`"quoted key":`+S+"1", `"\("a")b":`+S+"2", "(\"x\"):"+S+"3") + line, false
 	case "unary":
 		return doc + f("un") + ":" + S0 + "-" + LP + "1" + RP + O + "+" + OB + "+2" + line + "\n" + f("ub") + ":" + S + "!true" + O + "||" + O + "!" + LP + "false" + RP + "\n" + f("uc") + ":" + S + ">=1" + O + "&" + O + "<" + LP + "10" + RP + O + "&" + O + `!=5 & =~"^1"`, false
+	case "mlplain":
+		// no interpolation; a line holding only the indentation, an empty line, a deeper line
+		I := l.ind() + l.ind()
+		return doc + f("mp") + ":" + S0 + "\"\"\"\n" + I + "foo\n" + I + "\n\n" + I + "  bar\n" + I + "\"\"\"" + line, false
+	case "mlbytes":
+		I := l.ind()
+		return doc + f("mb") + ":" + S0 + "'''\n" + I + "foo\n" + I + "\n" + I + "\tbar\n" + I + "baz\n" + I + "'''" + line + "\n" + f("mh") + ":" + S + "#\"\"\"\n" + I + I + "a \\(x) \\#(1)\n" + I + I + "\"\"\"#", false
 	case "disjml":
 		return doc + f("dj") + ":" + S0 + `*"a"` + O + "|\n" + l.ind() + l.ind() + `"b"` + O + "|" + OB + `"c"` + line, false
 	}
